@@ -101,15 +101,32 @@ theorem outer_intersect (a b : Range) (init : List BoundSet) :
 
 theorem Range_intersect (a b : Range) : Range.rs_intersect a b = Range.intersect a b := by
   unfold Range.rs_intersect Range.intersect
-  simp only [id_run, id_bind, id_pure]
-  rw [forIn_fold (g := fun x s => s ++ b.filterMap (fun y => x.intersect y))]
-  · rw [outer_intersect]; simp [Rust.is_empty]
-  · intro x s
-    rw [forIn_fold (g := fun y s => match x.intersect y with
-      | some set_ => s ++ [set_]
-      | none => s)]
-    · rw [inner_intersect]
-    · intro y s; rw [BoundSet_intersect]; cases x.intersect y <;> rfl
+  first
+  | -- two nested `for` loops pushing onto a vector
+    (simp only [id_run, id_bind, id_pure]
+     rw [forIn_fold (g := fun x s => s ++ b.filterMap (fun y => x.intersect y))]
+     · rw [outer_intersect]; simp [Rust.is_empty]
+     · intro x s
+       rw [forIn_fold (g := fun y s => match x.intersect y with
+         | some set_ => s ++ [set_]
+         | none => s)]
+       · rw [inner_intersect]
+       · intro y s; rw [BoundSet_intersect]; cases x.intersect y <;> rfl)
+  | -- the same loops ending in `(!sets.is_empty()).then(..)`
+    (simp only [id_run, id_bind, id_pure]
+     rw [forIn_fold (g := fun x s => s ++ b.filterMap (fun y => x.intersect y))]
+     · rw [outer_intersect]; simp [Rust.is_empty]; cases (Range.intersectSets a b) <;> simp
+     · intro x s
+       rw [forIn_fold (g := fun y s => match x.intersect y with
+         | some set_ => s ++ [set_]
+         | none => s)]
+       · rw [inner_intersect]
+       · intro y s; rw [BoundSet_intersect]; cases x.intersect y <;> rfl)
+  | -- an iterator chain (`flat_map` / `filter_map` / `flatten`)
+    (have hi : ∀ x y : BoundSet, x.rs_intersect y = x.intersect y := BoundSet_intersect
+     simp [Range.intersectSets, Rust.flat_map, Rust.filter_map, Rust.collect, RCollect.collect, RIntoList.toList,
+       Rust.is_empty, Rust.flatten, RFlatten.flatten, Rust.map, RMap.map, hi, Id.run]
+     try (cases (List.flatMap (fun x => List.filterMap (fun y => x.intersect y) b) a) <;> simp))
 
 /-! ### difference -/
 
